@@ -27,3 +27,19 @@ package referenceclient
 //@   modifies chanClosed, tracer.Trace.*, tracer.traceResult.*, held
 //@   ensures @stored hasWrapper(reqCtx(trace.Request)) ==> chanClosed[wrapperOf(reqCtx(trace.Request)).traceAvailable] &&
 //@        wrapperOf(reqCtx(trace.Request)).trace.TestName == trace.TestName && wrapperOf(reqCtx(trace.Request)).trace.Events == trace.Events
+
+// ---- wire examiners (C13) ----
+
+// HTTP field values: every byte is HTAB or visible (32 and up) other than DEL; field names:
+// every byte is an RFC 7230 token character. Exactly (both directions), for every string.
+//@ spec fieldValueByte(c int) bool = c == 9 || (c >= 32 && c != 127)
+//@ spec tokenByte(c int) bool = c == 33 || c == 35 || c == 36 || c == 37 || c == 38 || c == 39 || c == 42 || c == 43 || c == 45 || c == 46 ||
+//@      c == 94 || c == 95 || c == 96 || c == 124 || c == 126 || (c >= 48 && c <= 57) || (c >= 97 && c <= 122) || (c >= 65 && c <= 90)
+//@ func isValidHTTPFieldValue
+//@   pure
+//@   ensures result == (forall k int :: 0 <= k && k < len(s) ==> fieldValueByte(s[k]))
+//@   loop 0: invariant 0 <= i && i < len(s) && forall k int :: 0 <= k && k < i ==> fieldValueByte(s[k])
+//@ func isValidHTTPFieldName
+//@   pure
+//@   ensures result == (forall k int :: 0 <= k && k < len(s) ==> tokenByte(s[k]))
+//@   loop 0: invariant 0 <= i && i < len(s) && forall k int :: 0 <= k && k < i ==> tokenByte(s[k])
